@@ -170,9 +170,9 @@ CLAIMS = {
                  "decoded-byte queue is known empty, otherwise bytes are delivered from the queue after the new bytes were put (single "
                  "ordered route); every yield in stream/read_chunked is guarded by the truthiness of what it yields; a zstandard "
                  "decompressobj is never fed when it may be at eof and a gzip decoder starts a new decompressobj before feeding "
-                 "unused_data; MultiDecoder undoes codings in reverse header order and flushes the decoder applied last; each optional "
+                 "unused_data; MultiDecoder undoes codings in reverse header order and its flush() walks every decoder in that order, feeding each flush to the next (F23, repaired); each optional "
                  "codec is advertised, constructed and error-mapped under one guard; flush_decoder is true exactly for read-all or a "
-                 "sized read that returned no data - decided for every decode call of read, including the refill reads of one call: bytes that may be empty are never decoded under a definitely-false flag (C12-R6; found F19, repaired); stream() loops until the stdlib response is closed and the queue is empty; "
+                 "sized read that returned no data - decided for every decode call of read, including the refill reads of one call: bytes that may be empty are never decoded under a definitely-false flag, and the end of the body is not reported before a decoder that was fed is flushed (C12-R6; found F19 and F24, both repaired); stream() loops until the stdlib response is closed and the queue is empty; "
                  "readinto/iteration/.data go through the same readers. Declined (most of the statement): equality of concatenations over "
                  "arbitrary call sequences, the read(n) size contract, segmentation independence."
                  " A sized take from the decoded-byte queue always follows a put or a size test (C12-R10); the raw reader never closes the stdlib response early with a piece in hand (C13-R1, shared)."),
@@ -189,9 +189,9 @@ CLAIMS = {
                  "DecodeError, an incomplete zstd frame raises at flush, only trailing gzip garbage after a full member is ignored; "
                  "conflicting Content-Length raises InvalidHeader (not a ValueError), chunked ignores length; unclean exits close the "
                  "connection (shared C01-R5/R6); preload and .data use read(); enforce_content_length defaults to True and is forwarded "
-                 "at every hop; the flush flag of every decode in read(amt) belongs to the bytes it accompanies (C12-R6 shared: F19, repaired). Declined: enumeration over every cut position."
+                 "at every hop; the flush flag of every decode in read(amt) belongs to the bytes it accompanies and read() does not report the end of the body before a decoder fed by earlier calls was flushed (C12-R6 shared: F19, F24, repaired); flush() of a stacked coding reaches every layer (C12-R4 shared: F23, repaired); a chunk-size line must be checked to be hex digits before int() - in urllib3's chunk reader and in http.client's (C13-R10: neither does - F22a, F22b, known). Declined: enumeration over every cut position."
                  " The raw reader itself never ends a good body early, and an early release never recycles the connection of an unfinished body (C03-R8, shared)."),
-        "note": _TRUST + "http.client's _safe_read raising IncompleteRead is read from its source. F12 (read1 without amount) and F19 (refill read never flushed the decoder) were repaired in /repo.",
+        "note": _TRUST + "http.client's _safe_read raising IncompleteRead is read from its source. F12 (read1 without amount), F19 (refill read never flushed the decoder), F23 (MultiDecoder.flush reached one layer) and F24 (end of body reported before the flush) were repaired in /repo; F22a/F22b (chunk-size lines accepted by int(x, 16) alone) are known findings, F22b in the standard library.",
         "technique": "static analysis: decision-table extraction on _raw_read, exceptional-path typestate on the chunk parser, handler/lattice queries",
     },
     "C14": {
@@ -214,8 +214,8 @@ CLAIMS = {
                  "Url.request_uri reads only path and query ('/' when empty) and the absolute-form target drops auth and fragment; the "
                  "dialled name is _dns_host while Host/SNI use it without trailing dot; the TLS server name loses brackets/zone id only for "
                  "IP literals; the pool's host is bracket-stripped while CONNECT keeps brackets; scheme/host are lower-cased by parser and "
-                 "key normaliser; through a forwarding proxy the request carries the Host derived from its own URL and that derived Host cannot ride along to the request for another URL (C15-R8: it can - F16, known). Declined: byte-identical requests; the Host line http.client writes by itself."),
-        "note": _TRUST + "F10 (userinfo and fragment in the absolute-form target) was repaired in /repo; F16 (stale Host after a redirect through a forwarding proxy) is a known finding.",
+                 "key normaliser; through a forwarding proxy the request carries the Host derived from its own URL and that derived Host cannot ride along to the request for another URL (C15-R8: it can - F16, known); the default port replaces only an absent port (C15-R1: it also replaces port 0 - F21, known). Declined: byte-identical requests; the Host line http.client writes by itself."),
+        "note": _TRUST + "F10 (userinfo and fragment in the absolute-form target) was repaired in /repo; F16 (stale Host after a redirect through a forwarding proxy) and F21 (port 0 dialled as the default port) are known findings.",
         "technique": "static analysis: provenance tags through abstract interpretation of the drivers, read-set of Url views, def-use queries",
     },
     "C16": {
